@@ -139,7 +139,7 @@ pub broadcast proof fn lemma_max_is_earliest(m: Multiset<TimeoutData>, x: Timeou
             old(self).uniq() ==> final(self).uniq(),
             final(self).next_counter() == old(self).next_counter(),
 //@ enditem
-//@ item src/sources/timer.rs / impl TimerWheel / fn next_expired props=C05,C02 ret=r
+//@ item src/sources/timer.rs / impl TimerWheel / fn next_expired props=C05,C02,C01 ret=r
 //@ closure <<|data| now >= data.deadline>>
 -> (b: bool) ensures b == (nanos(now) >= data.ns())
 //@ entry
